@@ -411,6 +411,34 @@ def run(ctx):
     from . import c14 as _c14
     _core.run_proxied(ctx, _c14, 'R02x', ('M2e',))
 
+    # ---- R02ac: character classes of the reader's patterns
+    ctx.rule('R02ac', 'no regular expression of the parser layer has a character-class range whose end points are of different '
+                      'kinds (`.-_`): such a range is an accident of where a hyphen was put -- it admits a block of unrelated '
+                      'characters and drops the literal hyphen, so \\begin{my-env} is no longer an environment name '
+                      '(grules.accidental_ranges, on the parsed pattern)', 1)
+    from .. import grules as _grx
+    if _grx.accidental_ranges(r'[A-Za-z0-9*.-_ ]+') != [('.', '_')] or _grx.accidental_ranges(r'[A-Za-z0-9*._ -]+'):
+        raise AnalysisError('R02ac: the range finder no longer separates its built-in examples')
+    n_rx = 0
+    for mod_ in sorted(repo.modules.values(), key=lambda m_: m_.name):
+        if not mod_.name.startswith(('pylatexenc.latexnodes', 'pylatexenc.macrospec', 'pylatexenc.latexwalker')):
+            continue
+        for c_ in ast.walk(mod_.tree):
+            if isinstance(c_, ast.Call) and call_name(c_) in ('compile', 'match', 'search', 'sub', 'fullmatch', 'split',
+                                                              'findall', 'finditer') and c_.args and \
+                    isinstance(c_.args[0], ast.Constant) and isinstance(c_.args[0].value, str) and \
+                    call_recv(c_) is not None and unparse(call_recv(c_)) == 're':
+                n_rx += 1
+                bad_ = _grx.accidental_ranges(c_.args[0].value)
+                ctx.decide('R02ac', not bad_, mod_, c_, 'pattern %s: ranges of one kind only' % short(c_.args[0], 40),
+                           'the pattern %s contains the range %r-%r, whose end points are not both digits / lower case / upper '
+                           'case: it matches every character between them (and not a literal hyphen) -- environment names '
+                           'with a hyphen are rejected ("Bad \\begin call"), names with other punctuation accepted'
+                           % (short(c_.args[0], 70), bad_[0][0] if bad_ else '', bad_[0][1] if bad_ else ''),
+                           construct='%s: regex %s' % (mod_.relpath, short(c_.args[0], 30)))
+    if not n_rx:
+        ctx.unknown('R02ac', trm_, None, 'no regular expression literal found in the parser layer', construct='regex scan')
+
     # ---- R02aa (C17 P2/P4), R02ab (C10 R10h)
     ctx.rule('R02aa', 'the lookup tables cached on a parsing state are reused from the parent only when no field they depend on '
                       'changes: math opened inside math (`\\[ a \\hbox{if $x$ then} b \\]`) otherwise expects the OUTER closing '
